@@ -4,7 +4,9 @@ import concurrent.futures as cf
 from . import common as C
 
 
-def run_texts(vh, exe, texts, chunk=1500, timeout=900):
+def run_texts(vh, exe, texts, chunk=None, timeout=900):
+    if chunk is None:
+        chunk = max(20, min(1500, len(texts) // (2 * C.NCPU) + 1))
     chunks = [texts[i:i + chunk] for i in range(0, len(texts), chunk)]
 
     def one(ch):
